@@ -186,9 +186,35 @@ pub fn run(ctx: &mut Ctx) -> Report {
 			}
 		}
 	}
+	// ... and so does what a *loaded* key hands out, through each of its export accessors, whatever
+	// encoding the key came in (the other back end reads PKCS#8 only)
+	#[cfg(not(feature = "nocrypto"))]
+	for doc in crate::props::c11::make_docs(&s.ctx.rsa_fixture.clone(), false) {
+		if doc.kty == "p521" || doc.kty == "rsaBig" {
+			continue; // outside what the two back ends have in common
+		}
+		let Ok(k) = KeyPair::try_from(doc.der.as_slice()) else { continue };
+		let name = alg_name(k.algorithm());
+		let from_pem = pem::parse(k.serialize_pem()).map(|p| p.contents().to_vec()).unwrap_or_default();
+		for (accessor, der) in [("serialize_der", k.serialize_der()), ("serialized_der", k.serialized_der().to_vec()), ("serialize_pem", from_pem)] {
+			s.rep.case(&format!("loaded-export-import {} {} {} {} {}", build(), doc.origin, doc.fmt, doc.kty, accessor), true);
+			match other_backend_public(name, &der) {
+				Some(p) if p == k.public_key_raw() => s.rep.count("loaded_keys_exported_to_other_backend"),
+				// the ring build has OpenSSL standing in for the other back end, and OpenSSL does not
+				// read the Ed25519 documents with an attached public key that ring (and aws-lc-rs) write
+				None if !cfg!(feature = "aws") && doc.kty == "ed25519" && classify_v2(&der) => s.rep.count("stand_in_cannot_load:ed25519-v2"),
+				other => s.rep.violate(&format!("C16:key-export:loaded:{}:{}", doc.fmt, accessor), "what a loaded key exports does not load in the other back end with the same public key", format!("build={} document origin={} format={} key type={} accessor={}() -> {}", build(), doc.origin, doc.fmt, doc.kty, accessor, if other.is_some() { "another public key" } else { "refused" })),
+			}
+		}
+	}
 	let req = s.drv.requests;
 	s.rep.add("driver_requests", req);
 	s.rep
+}
+
+/// a PKCS#8 document of version 1 (OneAsymmetricKey with the public key attached)
+fn classify_v2(der: &[u8]) -> bool {
+	crate::der::read_tlv(der).and_then(|(t, _)| crate::der::children(t.content)).map(|k| k.first().map(|v| v.tag == 2 && v.content == [1u8]).unwrap_or(false)).unwrap_or(false)
 }
 
 /// load a PKCS#8 document with the *other* back end than the one rcgen is built with
